@@ -11,7 +11,7 @@
    F. Section CPython: with the shortest-repr / correctly-rounded-strtod contract as HYPOTHESES, the round trip;
    G. integers: value_parse_integer (str z) = z. *)
 From Coq Require Import Lia ZifyBool SpecFloat.
-From BS Require Import Model.Base Model.Num Model.Regex Model.NumText Gen.Unicode Gen.Regexes Proofs.BaseFacts.
+From BS Require Import Model.Base Model.Num Model.Regex Model.NumText Gen.Unicode Gen.Regexes Proofs.BaseFacts Proofs.NumSpace.
 Local Open Scope Z_scope.
 
 (* ================================================================== A. float() = conversion after py_dec *)
@@ -48,7 +48,7 @@ Qed.
 Theorem py_float_factors s : py_float s = float_with dec_to_sf s.
 Proof.
   unfold py_float, float_with, py_dec. rewrite !sign_match.
-  destruct (strip s) as [|c t].
+  destruct (fstrip s) as [|c t].
   - cbv beta iota. rewrite py_float_body_dec. destruct (py_dec_body []); reflexivity.
   - cbv beta iota. destruct (c =? 45)%N; [|destruct (c =? 43)%N]; rewrite py_float_body_dec;
       match goal with |- context [py_dec_body ?x] => destruct (py_dec_body x) end; reflexivity.
@@ -359,6 +359,12 @@ Proof.
   apply rev_involutive.
 Qed.
 
+Lemma fstrip_no_space s : no_space s = true -> fstrip s = s.
+Proof.
+  intros H. apply NumSpace.fstrip_id. apply Forall_forall. intros c Hc. unfold no_space in H. rewrite forallb_forall in H.
+  specialize (H c Hc). destruct (U_space c); [discriminate|reflexivity].
+Qed.
+
 (* -- the three shapes *)
 Lemma lower_ascii_d d : is_d d = true -> lower_ascii d = d.
 Proof. intros H. apply is_d_range in H. unfold lower_ascii. replace ((65 <=? d)%N && (d <=? 90)%N) with false by lia. reflexivity. Qed.
@@ -426,7 +432,7 @@ Qed.
 Lemma py_dec_sgn neg d t : is_d d = true -> no_space (d :: t) = true ->
   py_dec (sgn neg ++ d :: t) = option_map (pair neg) (py_dec_body (d :: t)).
 Proof.
-  intros Hd NS. unfold py_dec. rewrite strip_no_space by (rewrite no_space_app, sgn_no_space; exact NS).
+  intros Hd NS. unfold py_dec. rewrite fstrip_no_space by (rewrite no_space_app, sgn_no_space; exact NS).
   rewrite sign_match. destruct neg; cbn [sgn app].
   - reflexivity.
   - apply is_d_range in Hd. replace (d =? 45)%N with false by lia. replace (d =? 43)%N with false by lia. reflexivity.
@@ -685,14 +691,14 @@ Proof.
   unfold value_string_int. destruct z as [|p|p]; [vm_compute; reflexivity| |]; cbn [Z_to_str];
     destruct (N_to_str_spec p) as [ds [-> [NE [AD DV]]]]; destruct ds as [|d ds']; try congruence;
     pose proof AD as AD'; apply all_d_cons in AD'; destruct AD' as [Hd _].
-  - unfold value_parse_integer. rewrite strip_no_space by (apply all_d_no_space; auto).
+  - unfold value_parse_integer. rewrite fstrip_no_space by (apply all_d_no_space; auto).
     rewrite N_sign_match.
     apply is_d_range in Hd. replace (d =? 45)%N with false by lia. replace (d =? 43)%N with false by lia.
     rewrite <- (app_nil_r (d :: ds')). rewrite scan_digits_app by auto.
     assert (L : 0 + len (d :: ds') =? 0 = false) by (unfold len; cbn [length]; lia). rewrite L.
     unfold dval in DV. rewrite DV. reflexivity.
   - unfold value_parse_integer.
-    rewrite strip_no_space by (change (45%N :: d :: ds') with ([45%N] ++ d :: ds'); rewrite no_space_app, (all_d_no_space _ AD); reflexivity).
+    rewrite fstrip_no_space by (change (45%N :: d :: ds') with ([45%N] ++ d :: ds'); rewrite no_space_app, (all_d_no_space _ AD); reflexivity).
     cbv iota beta. rewrite <- (app_nil_r (d :: ds')). rewrite scan_digits_app by auto.
     assert (L : 0 + len (d :: ds') =? 0 = false) by (unfold len; cbn [length]; lia). rewrite L.
     unfold dval in DV. rewrite DV. reflexivity.
